@@ -24,19 +24,27 @@ RULE = ("Enumerated: the complete 6 gate logics x 7 executor verdicts x 7 assess
 ASSUMPTIONS = [
     "executor permits = EXECUTE or PERMIT; assessor permits = PERMIT; MAJORITY (absent from the statement) is held to the AND criterion",
     "only the soundness direction is deciding (not blocked => criterion holds); the converse is reported as a label count",
-    "prompts contain no lone surrogates (hashing encodes the prompt)",
+    "a prompt with a lone surrogate may be refused with UnicodeEncodeError (hashing encodes the prompt; the statement is silent); if it is accepted it is a request like any other",
     "circuit breaker disabled here (C08 covers it); real-time cache TTL (300 s) is never reached within a case",
 ]
 RULE += " Added after the seeded rounds: " + 'Stub agents report a generated confidence (0.0 / 0.5 / 0.9 / 1.0) and raise one of 16 exception types.'
 RULE += ' Unknown verdict words (empty, fragments and extensions of PERMIT / EXECUTE); `bulk`: 999..1003 distinct permitted requests first (bounds of the decision cache and the result log), then requests that revisit evicted and surviving prompts.'
+RULE += ' The prompt pool contains near-duplicates that differ only in characters an encoder or normaliser might drop or fold (NFC/NFD, zero-width, NUL, NBSP, full-width, case, lone surrogates): each is a different request for the cache and the token hash; a surrogate prompt may be refused with UnicodeEncodeError.'
+RULE += ' Bookkeeping calls between requests (clear_cache, get_statistics).'
 EXHAUSTIVE_NOTE = {"quick": "6x7x7 verdict table x (4 prompts x cache on/off + 3 confidence corners) = 3234 cells, complete",
                    "thorough": "6x7x7 verdict table x (4 prompts x cache on/off + 3 confidence corners) = 3234 cells, complete"}
 
-_POOL = ["", "deploy", "deploy ", "Deploy", "a" * 300, "delete all", "x", "café ☃", "bulk-0", "bulk-1", "bulk-500", "bulk-1000"]
+_POOL = ["", "deploy", "deploy ", "Deploy", "a" * 300, "delete all", "x", "café ☃", "bulk-0", "bulk-1", "bulk-500", "bulk-1000",
+         # near-duplicates that differ only in characters an encoder / normaliser might drop or fold: every one is a different request
+         "caf\u00e9 ☃", "cafe\u0301 ☃", "de\u200bploy", "deploy\x00", "\ud800deploy", "dep\udc80loy", "deploy\udfff", "delete\u00a0all", "ｄｅｐｌｏｙ", "DEPLOY", " deploy", "deploy\n"]
 _prompt = st.one_of(st.sampled_from(_POOL), st.text(max_size=20))
 _conf = st.sampled_from([0.9, 0.9, 0.0, 1.0, 0.5])
 _ALLK = KINDS + sorted(RAISE_KINDS) + UNKNOWN_KINDS
-_req = st.tuples(_prompt, st.sampled_from(_ALLK), st.sampled_from(_ALLK + ["PERMIT", "PERMIT", "BLOCK"]), _conf, _conf).map(list)
+_req = st.one_of(st.tuples(_prompt, st.sampled_from(_ALLK), st.sampled_from(_ALLK + ["PERMIT", "PERMIT", "BLOCK"]), _conf, _conf),
+                 st.tuples(_prompt, st.sampled_from(_ALLK), st.sampled_from(_ALLK + ["PERMIT", "PERMIT", "BLOCK"]), _conf, _conf),
+                 st.tuples(_prompt, st.sampled_from(_ALLK), st.sampled_from(_ALLK + ["PERMIT", "PERMIT", "BLOCK"]), _conf, _conf),
+                 st.tuples(_prompt, st.sampled_from(_ALLK), st.sampled_from(_ALLK + ["PERMIT", "PERMIT", "BLOCK"]), _conf, _conf),
+                 st.tuples(st.sampled_from(["@clear_cache", "@get_statistics"]), st.just("EXECUTE"), st.just("PERMIT"))).map(list)
 
 
 def strategy(tier):
@@ -81,11 +89,24 @@ def judge(case):
         out.label("bulk")
     for i, req in enumerate([["bulk-%d" % k, "EXECUTE", "PERMIT"] for k in range(bulk)] + case["reqs"]):
         prompt, e, a = req[:3]
+        if prompt in ("@clear_cache", "@get_statistics"):
+            getattr(loop, prompt[1:])()          # bookkeeping between requests: verdicts, tokens and cached replies must not depend on it
+            if prompt == "@clear_cache":
+                stored.clear()
+                last_pair.clear()
+            continue
         ex.kind, ass.kind = e, a
         ex.conf, ass.conf = (req[3], req[4]) if len(req) >= 5 else (0.9, 0.9)     # a verdict is a verdict at any reported confidence
         c0 = (ex.calls, ass.calls)
+        surrogate = any(0xD800 <= ord(ch) <= 0xDFFF for ch in prompt)
         try:
             r = loop.run(prompt)
+        except UnicodeEncodeError as exc:
+            if surrogate:
+                out.label("surrogate-prompt-rejected")     # the statement is silent on prompts that cannot be encoded: refusing them is fine,
+                continue                                    # confusing them with another request (below) is not
+            out.fail("raise:UnicodeEncodeError", "run() raised %s" % exc, {"step": i, "req": [prompt, e, a]})
+            break
         except Exception as exc:
             out.fail("raise:%s" % type(exc).__name__, "run() raised %s: %s" % (type(exc).__name__, exc), {"step": i, "req": [prompt, e, a]})
             break
@@ -126,8 +147,8 @@ def judge(case):
                 out.fail("token:without-assessor-permit", "approval token attached although the assessor answered %s" % a, detail)
             if tok.issuer != ass.name:
                 out.fail("token:issuer", "token issuer %r is not the assessor %r" % (tok.issuer, ass.name), detail)
-            want = hashlib.sha256(prompt.encode()).hexdigest()[:16]
-            if tok.request_hash != want:
+            want = None if surrogate else hashlib.sha256(prompt.encode()).hexdigest()[:16]
+            if want is not None and tok.request_hash != want:
                 out.fail("token:hash-not-of-this-request", "token hash %r is not the hash of this prompt (%r)" % (tok.request_hash, want), detail)
             for p2, h2 in hashes.items():
                 if (p2 == prompt) != (h2 == tok.request_hash):
